@@ -22,6 +22,7 @@ def run(ctx: Ctx) -> None:
     ctx.rule("C13.R4", "the replayed prefix literal is exactly the part of the HTTP/2 preface that h11 parsed as a request line", floor=1)
     ctx.rule("C13.R5", "H2Protocol.initiate(headers) creates stream 1 from the upgrade request and ends its body; the h2c error carries :method/:path/:authority and the HTTP2-Settings value", floor=4)
     ctx.rule("C13.R6", "ALPN and TLS state are read from the transport in both workers; cleartext connections start as http/1.1", floor=4)
+    ctx.rule("C13.R8", "a GET with Upgrade: websocket and a Connection header containing the token `upgrade` (any spacing/case, any position) starts a WebSocket; HTTP/2 CONNECT does (same table as C11.R2)", floor=2)
     ctx.rule("C13.R7", "WebSocket pass-through after the HTTP/1.1 upgrade is seeded with h11's trailing data and returns every buffered byte once", floor=4)
 
     pw = repo.func("protocol", "ProtocolWrapper.__init__")
@@ -189,5 +190,9 @@ def run(ctx: Ctx) -> None:
         wsn = [n for n in walk_local(cs11) if isinstance(n, ast.Assign) and dotted(n.targets[0]) == "self.stream" and "WSStream" in norm(n.value)]
         ok = len(wsn) == 1 and guard_atoms(wsn[0]) == guard_atoms(sw[0])
     ctx.check("C13.R7", f"{M}:H11Protocol._create_stream", "connection swapped for the pass-through exactly when a WSStream is created", ok, "the pass-through connection must replace h11 exactly for WebSocket upgrades", cs11)
+
+    from .c11 import upgrade_table
+
+    upgrade_table(ctx, "C13.R8")
 
     ctx.assume("not decided: independence from segmentation (h11's incremental parser), TLS/ALPN negotiation itself, that h2 accepts the replayed bytes")
